@@ -14,6 +14,7 @@ macro_rules! verif_harness_ns {
         #[kani::stub(parking_lot::RawMutex::lock_slow, stubs::mutex_lock_slow)]
         #[kani::stub(parking_lot::RawMutex::unlock_slow, stubs::mutex_unlock_slow)]
         #[kani::stub(foyer_common::metrics::Metrics::noop, foyer_common::metrics::Metrics::verif_noop)]
+        #[kani::stub(std::alloc::dealloc, stubs::dealloc_noop)]
         #[kani::stub(std::backtrace::Backtrace::capture, stubs::backtrace_disabled)]
         #[kani::stub(alloc::fmt::format, stubs::fmt_format_empty)]
         #[kani::stub(core::panicking::panic_nounwind_fmt, stubs::panic_nounwind_fmt_stub)]
